@@ -496,7 +496,7 @@ def run(ctx):
     srecs = pool.run_jobs(MOD, sjobs, limit=120.0, procs=12)
     core.log("  scale regime: %d real calls %.1fs (%d timed out)" % (
         len(sjobs), time.time() - t0, sum(1 for r in srecs if r.get("timeout"))))
-    recs = pool.run_jobs(MOD, jobs, limit=20.0)
+    recs = pool.run_jobs(MOD, jobs, limit=20.0, strict_fp=True)
     live = [r for r in srecs if not r.get("timeout")]
     parts = [live[lo:lo + SCALE_CHUNK] for lo in range(0, len(live), SCALE_CHUNK)]
     thunks = [lambda: ctx.validate(*TRACE, recs, chunk=4000)]
